@@ -14,8 +14,8 @@ from fractions import Fraction
 LEVEL = "other"
 MANIFEST = {
     "level": "other",
-    "technique": "contract-based deductive verification (AST->SMT, z3) of the exporter's cursor kernels forward_backup_if_needed and find_free_voice; the file-level round trip (lxml, 3000 lines) is outside the verifier's reach and is checked as run-time contracts (bounded): load(save(s)) = s clause by clause, an independent MusicXML interpreter on the written text, and byte-wise save(load(file)) = file, on a feature lattice of generated scores and the fixture files",
-    "text": "Proved for all integer inputs: forward_backup_if_needed emits exactly one forward of t - t_prev / one backup of t_prev - t / nothing and reports that gap; find_free_voice returns a voice above the minimum and above every span overlapping [start, end). Bounded: every clause of the round trip on generated scores (each notational feature alone, rich combinations, all pairs in thorough) and fixtures.",
+    "technique": "contract-based deductive verification (AST->SMT, z3) of the exporter's kernels forward_backup_if_needed, find_free_voice and add_chord_tags; the file-level round trip (lxml, 3000 lines) is outside the verifier's reach and is checked as run-time contracts (bounded): load(save(s)) = s clause by clause, an independent MusicXML interpreter on the written text, and byte-wise save(load(file)) = file, on a feature lattice of generated scores and the fixture files",
+    "text": "Proved for all integer inputs: forward_backup_if_needed emits exactly one forward of t - t_prev / one backup of t_prev - t / nothing and reports that gap; find_free_voice returns the smallest voice above the minimum and above every span overlapping [start, end) (1-4 spans); add_chord_tags marks exactly the elements that share onset and duration with the preceding non-grace element (1-3 elements). Bounded: every clause of the round trip on generated scores (each notational feature alone, rich combinations, all pairs in thorough) and fixtures.",
     "note": "round trip bounded only; lxml element construction abstracted in the kernel proofs (etree calls are opaque constructors)",
 }
 EXPLANATION = "SMT contracts on exporter kernels + bounded run-time round-trip contracts."
